@@ -76,6 +76,7 @@ type World struct {
 	marks     map[string][]Rec    // unfilled frame marks per client
 	evIDs     map[interface{}]int // resource event / subscription pointer -> id
 	resetPats []string            // resource patterns of the system resets sent so far
+	probes    int                 // connection attempts made while a Stop was in progress
 	cidSym    map[string]string   // real cid -> symbolic id
 	symCID    map[string]string
 	pendSym   string // symbolic id to bind to the next conn.* subscription
